@@ -33,6 +33,10 @@ func register(name string, f scenarioFn) { scenarios[name] = f }
 // TestVerif is the single entry point of the harness binary: the driver runs
 // `badger.test -test.run ^TestVerif$` with VERIF_JOB pointing at a job file.
 func TestVerif(t *testing.T) {
+	if os.Getenv("VERIF_LOCK_HELPER") != "" {
+		lockHelperMain() // C35: this process plays the third database handle
+		return
+	}
 	j, err := vlib.ReadJob()
 	if err != nil {
 		t.Fatalf("bad job: %v", err)
